@@ -90,6 +90,9 @@ PROPS["C07"]["functions"] += [WEB + "StoreBasedCollection.iter_differences_since
                               "xandikos.store.git.BareGitStore.get_ctag"]
 PROPS["C08"]["functions"] += [WEB + "StoreBasedCollection.get_ctag", WEB + "StoreBasedCollection.get_sync_token",
                               WEB + "StoreBasedCollection.get_etag"]
+_RO = [G + "GitStore.get_displayname", G + "GitStore.get_description", G + "GitStore.get_comment", G + "GitStore.get_color",
+       G + "GitStore.get_source_url", WEB + "StoreBasedCollection.get_displayname", WEB + "StoreBasedCollection.get_comment"]
+PROPS["C08"]["functions"] += _RO
 PROPS["C01"]["functions"] += [W + "PostMethod.handle"]
 PROPS["C02"]["functions"] += [W + "_do_get"]
 PROPS["C03"]["functions"] += [W + "_do_get"]
@@ -133,6 +136,13 @@ PROPS["C14"] = {
                    "That icalendar's to_ical(from_ical(x)) is idempotent (so that re-uploading the *served* bytes is such a "
                    "no-op) is a library property: ASSUMED, bounded conformance only.",
 }
+# describe_delta / calendar_*_delta run between validation and storing (they build the commit message from the parsed objects):
+# not under contract; that they leave what gets stored alone is checked by the store explorer on every run
+PROPS["C14"]["bounded_always"] = {"xandikos.icalendar.ICalendarFile.describe_delta": {
+    "driver": "store_explore.py", "request": {"backends": ["tree-git"]},
+    "bound": "tree-git: histories of <= 5 store operations (quick: 250 seeded samples; thorough: all of length <= 3) whose uploads carry "
+             "multi-valued properties in unsorted order; after every acknowledged write the stored bytes must equal normalized() of a "
+             "freshly parsed copy of the upload"}}
 PROPS["C06"]["functions"] += ["xandikos.icalendar.ICalendarFile.get_uid"]
 IC = "xandikos.icalendar."
 FILTERS = "filters.py"
@@ -238,6 +248,13 @@ PROPS["C17"] = {
                    "the href codec are discharged; 'each distinct href exactly once' is covered only by the bounded HTTP "
                    "stand-in (DESIGN 6/C17).",
 }
+PROPS["C17"]["functions"] += ["xandikos.caldav.CalendarDataProperty.get_value_ext"]
+PROPS["C11"]["functions"] += ["xandikos.caldav.CalendarDataProperty.get_value_ext"]
+for _pid in ("C11", "C17"):
+    PROPS[_pid].setdefault("replay", {})["xandikos.caldav.CalendarDataProperty.get_value_ext"] = HTTP
+    PROPS[_pid].setdefault("standins", {})["xandikos.caldav.CalendarDataProperty.get_value_ext"] = {
+        "driver": HTTP, "bound": "calendar-multiget after every step of the HTTP model histories: calendar-data must equal the GET body "
+                                 "(modulo XML line-end normalisation), bodies with non-BMP and XML metacharacters; " + _HTTP_BOUND}
 for _f in (WEB + "StoreBasedCollection.members", WEB + "StoreBasedCollection.subcollections",
            WEB + "StoreBasedCollection._get_subcollection", G + "TreeGitStore.subdirectories"):
     PROPS["C16"].setdefault("replay", {})[_f] = HTTP
